@@ -525,27 +525,28 @@ func defaultPolicies(spec filters.Spec) map[string]resilience.Policy {
 	if !ok {
 		return m
 	}
+	retry, cb := map[string]bool{}, map[string]bool{}
 	for _, p := range ps.Pools {
-		if p == nil {
-			continue
+		if p != nil && p.RetryPolicy != "" {
+			retry[p.RetryPolicy] = true
 		}
-		if p.RetryPolicy != "" {
-			if pol, err := resilience.NewPolicy(map[string]interface{}{"name": "r", "kind": "Retry", "waitDuration": "1ms", "maxAttempts": 2}); err == nil {
-				m[p.RetryPolicy] = pol
-			}
+		if p != nil && p.CircuitBreakerPolicy != "" {
+			cb[p.CircuitBreakerPolicy] = true
 		}
 	}
-	for _, p := range ps.Pools {
-		if p == nil {
-			continue
+	for n := range retry {
+		if cb[n] {
+			// one name used for both kinds can only be judged against the resilience
+			// section of a Pipeline (Pipeline cases); a stand-alone filter gets no policies
+			return nil
 		}
-		if p.CircuitBreakerPolicy != "" {
-			if _, dup := m[p.CircuitBreakerPolicy]; dup {
-				continue // same name for both kinds: leave the retry policy there (the code then panics: wrong kind)
-			}
-			if pol, err := resilience.NewPolicy(map[string]interface{}{"name": "c", "kind": "CircuitBreaker", "slidingWindowSize": 2, "minimumNumberOfCalls": 1}); err == nil {
-				m[p.CircuitBreakerPolicy] = pol
-			}
+		if pol, err := resilience.NewPolicy(map[string]interface{}{"name": "r", "kind": "Retry", "waitDuration": "1ms", "maxAttempts": 2}); err == nil {
+			m[n] = pol
+		}
+	}
+	for n := range cb {
+		if pol, err := resilience.NewPolicy(map[string]interface{}{"name": "c", "kind": "CircuitBreaker", "slidingWindowSize": 2, "minimumNumberOfCalls": 1}); err == nil {
+			m[n] = pol
 		}
 	}
 	return m
@@ -568,9 +569,10 @@ func RunFilter(spec filters.Spec, reqs []Req, obs *Obs) {
 		return
 	}
 	if r, ok := f.(filters.Resiliencer); ok {
-		pols := defaultPolicies(spec)
-		if !Stage(obs, "init", "InjectResiliencePolicy", func() { r.InjectResiliencePolicy(pols) }) {
-			return
+		if pols := defaultPolicies(spec); pols != nil {
+			if !Stage(obs, "init", "InjectResiliencePolicy", func() { r.InjectResiliencePolicy(pols) }) {
+				return
+			}
 		}
 	}
 	for i, rq := range reqs {
